@@ -108,6 +108,8 @@ func obsC08Cmd(in string) string {
 func c08Text(r *rng) []byte {
 	var b []byte
 	switch k := r.intn(100); {
+	case k < 8:
+		b = c08Ledger(r)
 	case k < 78:
 		b = newC07g(r).journal(1)
 	case k < 90:
@@ -123,6 +125,52 @@ func c08Text(r *rng) []byte {
 		b = b[:20000]
 	}
 	return b
+}
+
+// c08Ledger: the shape of a hand-kept account statement - two or three accounts used over and over, the same
+// credit/debit pair on consecutive bookings, balance blocks (one line or several) between them, little variation in
+// layout.  The layout generator draws every account afresh, so consecutive bookings with the same pair around a
+// balance block did not occur (seeded change C08f-posting-column-cache-stale-after-balance reused the rendered
+// account columns of the previous posting and printed balance-line bytes in their place).
+func c08Ledger(r *rng) []byte {
+	accs := []string{"Assets:Bank", "Expenses:Food", "Assets:Cash", "Income:Salary"}[:r.rangeInt(2, 4)]
+	coms := []string{"CHF", "USD"}[:r.rangeInt(1, 2)]
+	var b strings.Builder
+	day := 1
+	date := func() string { day += r.intn(2); return fmt.Sprintf("2021-%02d-%02d", 1+day/28%12, 1+day%28) }
+	sp := func() string { return pick(r, []string{" ", " ", "  ", "\t", "    "}) }
+	posting := func(c, d string) {
+		fmt.Fprintf(&b, "%s%s%s%s%d%s%s\n", c, sp(), d, sp(), r.rangeInt(1, 5000), sp(), pick(r, coms))
+	}
+	c, d := accs[0], accs[1]
+	for i, n := 0, r.rangeInt(3, 14); i < n; i++ {
+		switch k := r.intn(100); {
+		case k < 45:
+			if r.chance(25) {
+				c, d = pick(r, accs), pick(r, accs)
+			}
+			fmt.Fprintf(&b, "%s \"%s\"\n", date(), pick(r, []string{"Migros", "Coop", "Lohn", "ATM", ""}))
+			for q, nq := 0, pick(r, []int{1, 1, 1, 2, 3}); q < nq; q++ {
+				posting(c, d)
+			}
+			b.WriteString("\n")
+		case k < 70:
+			fmt.Fprintf(&b, "%s balance\n", date())
+			for q, nq := 0, r.rangeInt(1, 4); q < nq; q++ {
+				fmt.Fprintf(&b, "%s%s%d%s%s\n", pick(r, accs), sp(), r.rangeInt(-900, 90000), sp(), pick(r, coms))
+			}
+			b.WriteString("\n")
+		case k < 80:
+			fmt.Fprintf(&b, "%s balance %s %d %s\n", date(), pick(r, accs), r.rangeInt(0, 9000), pick(r, coms))
+		case k < 88:
+			fmt.Fprintf(&b, "%s open %s\n", date(), pick(r, accs))
+		case k < 94:
+			fmt.Fprintf(&b, "%s price USD 0.9%d CHF\n", date(), r.intn(10))
+		default:
+			fmt.Fprintf(&b, "%s statement %d\n", pick(r, []string{"#", "//", "*"}), i)
+		}
+	}
+	return []byte(b.String())
 }
 
 func genC08(out *caseWriter, seed uint64, n int, _ []string) error {
